@@ -21,7 +21,7 @@ TIERS = {
     "thorough": {"classes": None, "instances": 12, "faults_per_instance": 2500, "random_inputs": 1500},
 }
 
-FAULT_OPS = ("flip", "overwrite", "insert", "delete", "duplicate", "swap", "truncate_garbage", "splice", "hostile")
+FAULT_OPS = ("flip", "overwrite", "insert", "delete", "duplicate", "swap", "truncate_garbage", "splice", "hostile", "repeat")
 HOSTILE = (b"\x7f\xff\xff\xff", b"\xff\xff\xff\xfe", b"\xff\xff\xff\xff\xff", b"\xff\xff\xff\xff\x0f", b"\x80\x00\x00\x00",
            b"\xff\xff\xff\xff\x07", b"\x7f\xff", b"\xff\xfe", b"\x80\x80\x80\x80\x80", b"\xfe\xff\xff\xff\x0f",
            b"\x7f\xff\xff\xff\xff\xff\xff\xff", b"\x80\x00\x00\x00\x00\x00\x00\x00", b"\x00\x00\xff\xff\xff\xff\xff\xff")
@@ -103,6 +103,17 @@ def corrupt(rng, data: bytes, hot: list[int], other: bytes) -> tuple[bytes, list
             q = rng.randrange(len(other) + 1) if other else 0
             m[p:] = other[q:]
             ops.append(("splice", p, q))
+        elif op == "repeat":
+            # one wire element (the bytes between two read boundaries) repeated many times: a long
+            # run of identical array items / tagged fields / nested entities inside one message
+            p = _pos(rng, n, hot)
+            later = [h for h in hot if h > p][:6]
+            k = (rng.choice(later) - p) if later and rng.random() < 0.8 else rng.randint(1, min(16, n - p))
+            k = max(1, min(k, n - p, 64))
+            times = rng.choice((3, 8, 64, 300, 1200))
+            times = max(1, min(times, 65536 // k))
+            m[p:p] = bytes(m[p:p + k]) * times
+            ops.append(("repeat", p, k, times))
         elif op == "hostile":
             p = _pos(rng, n, hot) if n else 0
             h = rng.choice(HOSTILE)
